@@ -1,0 +1,31 @@
+//go:build verif
+
+// Contracts checked by /verif/gvc (contract-based deductive verification).
+// This file contains comments only; it is compiled only under the "verif" build tag.
+
+package redis
+
+// C09 — loading the stored sessions at start-up: Iterate walks the whole keyspace with SCAN. A SCAN page may be empty
+// although the cursor is not back at 0 (redis documents this), so the walk may end only when the cursor returned by
+// the last page is 0 — or when redis fails or the callback says stop. Every page is asked for with the cursor the
+// previous page returned (0 for the first).
+
+//@ func type session.IterateFn
+//@ params sess
+//@ modifies heap
+//@ func getSessionLocked trusted
+//@ modifies heap
+
+//@ func (*Store).Iterate
+//@ props C09
+//@ requires [C09] s != nil && s.pool != nil && s.mu != nil && fn != nil
+//@ modifies heap, ghostall(redigo.Conn.$cmds), ghostall(redigo.Conn.$lastCmd), ghostall(redigo.Conn.$flushes), ghostall(redigo.Conn.$lastInt)
+// (the shape of redis' replies — an array of a cursor and an array of keys — is redigo's business: the type assertions
+// and index expressions on the reply are not checked here)
+//@ waive panic bounds index nil assert-type requires
+//@ loop 1 invariant c != nil && called(Conn.Do#1) >= 0 && (called(Conn.Do#1) == 0 ==> iter == 0)
+//@ loop 2 invariant c != nil
+//@ loop 3 invariant c != nil
+//@ call Conn.Do#1 assert [C09] commandName == "SCAN" && len(args) == 3 && args[0].(type int) && args[0].(int) == iter && args[1].(type string) && args[1].(string) == "MATCH" && args[2].(type string) && args[2].(string) == "session:*"
+// the walk ends normally only at cursor 0, unless the callback stopped it
+//@ ensures [C09] result == nil ==> iter == 0 || !cont
